@@ -16,6 +16,7 @@ import (
 	"bytes"
 	"encoding/binary"
 	"fmt"
+	"os"
 	"sort"
 	"strings"
 	"time"
@@ -910,7 +911,7 @@ func runTargeted(c *Case) {
 		h.clients = append(h.clients, cl)
 		return cl
 	}
-	admin := mk(2, "admin")   // id 1
+	admin := mk(2, "admin")    // id 1
 	old := mk(0, "old-holder") // id 2
 	other := mk(1, "other")    // id 3
 	_ = other
@@ -1136,6 +1137,9 @@ func runPresenceWire(c *Case) {
 			return false
 		}
 		u := &wireUser{wc: wc, live: true}
+		// the login reply is sent before handleNewConnection announces the user: a keep-alive is only read once the
+		// whole login sequence has been handed to the outbox, so wait for its reply before the history goes on
+		barrier(u)
 		var cc *hotline.ClientConn
 		for _, x := range ts.Srv.ClientMgr.List() {
 			if x.Connection == wc.Conn {
@@ -1309,6 +1313,16 @@ func runPresenceWire(c *Case) {
 		}
 		if n != u.want {
 			c.Note("history", clip(strings.Join(evs, " ")))
+			var got []string
+			for i := range inbox {
+				got = append(got, outStr(inbox[i]))
+			}
+			c.Note("presence_inbox", strings.Join(got, " ; "))
+			var ws []string
+			for _, w := range u.wc.Conn.Writes() {
+				ws = append(ws, fmt.Sprint(len(w)))
+			}
+			c.Note("write_sizes", strings.Join(ws, " "))
 			c.Violation("notification-count", fmt.Sprintf("user %d received %d presence notifications over its connection, exactly %d are due", u.id, n, u.want))
 			return
 		}
@@ -1357,10 +1371,18 @@ func init() {
 			"icon ids are 2-byte values, or 4-byte integers whose value fits 16 bits (a listed record has room for 2 bytes)",
 			"fewer than 65 535 users connected at once (the allocator loop needs a free id)",
 		}
-		x.Add(&Family{Name: "presence-history", Quick: 1500, Thor: 50000, Run: runPresenceHistory})
-		x.Add(&Family{Name: "id-wrap", Quick: 400, Thor: 20000, Run: runIDWrap})
-		x.Add(&Family{Name: "long-wrap", Quick: 1, Thor: 8, Run: runLongWrap})
-		x.Add(&Family{Name: "targeted", Quick: 48, Thor: 800, Run: runTargeted})
-		x.Add(&Family{Name: "presence-wire", Quick: 16, Thor: 400, Run: runPresenceWire})
+		fams := []*Family{
+			{Name: "presence-history", Quick: 1500, Thor: 30000, Run: runPresenceHistory},
+			{Name: "id-wrap", Quick: 400, Thor: 10000, Run: runIDWrap},
+			{Name: "long-wrap", Quick: 1, Thor: 8, Run: runLongWrap},
+			{Name: "targeted", Quick: 48, Thor: 500, Run: runTargeted},
+			{Name: "presence-wire", Quick: 16, Thor: 300, Run: runPresenceWire},
+		}
+		only := os.Getenv("VERIF_ONLY_FAMILY") // development aid: run a single family
+		for _, f := range fams {
+			if only == "" || only == f.Name {
+				x.Add(f)
+			}
+		}
 	}
 }
